@@ -17,7 +17,7 @@ import (
 type c03Route struct{ host, path string }
 
 var c03Hosts = []string{"", "foo.com", "a.foo.com", "*.foo.com", "*.a.foo.com", "*.com", "foo.com:8080", "foo.com:80", "foo.com:443"}
-var c03Paths = []string{"/", "/a", "/a/b", "/A", "/ä"}
+var c03Paths = []string{"/", "/a", "/a/b", "/A", "/ä", "/A/b"}
 var c03GlobPaths = []string{"/a/*", "/a*"}
 
 var c03ReqHosts = []string{"foo.com", "FOO.com", "Foo.Com:80", "foo.com:443", "a.foo.com", "x.a.foo.com", "foo.com:8080", "bar.org", "", "A.Foo.Com:443"}
